@@ -24,10 +24,13 @@ class Configurations(Unit):
     name = "bindings/configurations"
     properties = ("C19",)
     level = "bounded"
-    bound_note = "complete enumeration of the four binding configurations x every module of the package, executed natively (enumeration, not deduction)"
+    bound_note = "complete enumeration of the four binding configurations (a missing binding realised as None in sys.modules, as no such module, and as a module whose import fails) x every module of the package, executed natively (enumeration, not deduction)"
 
     def cases(self, tier):
-        return [{"have": h} for h in ("", "sgio", "iscsi", "sgio,iscsi")]
+        # the four presence combinations; "missing" is realised in three ways: None in sys.modules (default), no such
+        # module at all (!absent), installed but not loadable -- the import raises a plain ImportError (!broken)
+        return [{"have": h} for h in ("", "sgio", "iscsi", "sgio,iscsi", "sgio!absent,iscsi!absent", "sgio!broken,iscsi", "sgio,iscsi!broken",
+                                      "sgio!broken,iscsi!absent", "sgio!absent,iscsi!broken")]
 
     def case_id(self, case):
         return "bindings=%s" % (case["have"] or "none")
